@@ -31,6 +31,8 @@ def main():
     demo = next(wt.glob("demo_*.py"))
     patch = wt / "patch.diff"
     meta = {"seed": seed, "breaks_property": prop0, "ran": []}
+    old_meta = ROOT / "seeded" / seed / "meta.json"
+    prev = json.loads(old_meta.read_text()) if old_meta.exists() else {}
     # 1. with the patch
     rc, out = sh(f"/venv/bin/python -m pytest -q -p no:cacheprovider 2>&1 | tail -3", cwd=wt, env=env)
     meta["testsuite_with_patch"] = out.strip().splitlines()[-1] if out.strip() else ""
@@ -75,6 +77,11 @@ def main():
         sh("git -C /repo checkout -- .")
         for f in (ROOT / "replays").glob("*.json"):
             f.unlink()
+    seen = {r["check"] for r in meta["ran"]}
+    meta["ran"] += [r for r in prev.get("ran", []) if r["check"] not in seen]
+    for k in ("needs_to_manifest", "produced_by"):
+        if k in prev:
+            meta[k] = prev[k]
     meta["detected_by"] = [r["check"].split()[1] for r in meta["ran"] if r["exit"] == 1]
     (d / "meta.json").write_text(json.dumps(meta, indent=1))
     return 0
